@@ -28,6 +28,18 @@
 // Oracle (oracle.go, implementation only): the output parses; input and output compile to the
 // same FileDescriptorProto modulo source info and import order; every comment survives and
 // stays attached to the same declaration; format(format(x)) == format(x).
+//
+// Two further families are generated SYSTEMATICALLY rather than at random:
+//   - litgen.go, family "lit": one comment on every separator / bracket / value of an option
+//     literal (value kind x separator x gap x comment layout, rotating over nesting depth and
+//     the kind of declaration the option sits on);
+//   - degen.go, family "degenerate": empty / white-space-only / COMMENT-ONLY / one-statement files,
+//     through bufformat.FormatFileNode, bufformat.FormatBucket and the CLI (`buf format`, -w, -d,
+//     -o, --exit-code; the real root command run in process).
+//
+// A failing program is classified completely (every missing comment on its own) and its RESIDUAL
+// (the program without what explains the failure) is judged again, so a recorded finding never
+// hides another failure of the same program (reportFailures / classifyAll).
 package main
 
 import (
@@ -246,6 +258,86 @@ func shrink(p *program, class string, budget int) *program {
 
 // ---------------------------------------------------------------------------------------
 
+// maxResidualDepth bounds the chain program -> residual program -> ... (see classifyAll).
+const maxResidualDepth = 3
+
+// reportFailures records EVERY class of the failing verdict v of program p, then judges the
+// residual program (p without the constructs that explain those classes): if that fails again,
+// with whatever class, it is reported as well; if it passes, it is sent to the Lean checker as a
+// case of its own.  Without this a program that trips a recorded finding would be checked for
+// nothing else (about a third of the general programs do).
+func reportFailures(run *hx.Run, idx int, p *program, v verdict, seen map[string]bool, depth int) {
+	classes, residual := classifyAll(p, v)
+	src := p.render()
+	base := v.class
+	tag := ""
+	if depth > 0 {
+		tag = fmt.Sprintf(" residual-%d", depth)
+	}
+	for ci, c := range classes {
+		run.Count("failure:" + c)
+		replay := fmt.Sprintf("build/c07 --seed %d --tier %s --only %d --out /tmp/c07-replay --print", run.Seed, run.Tier, idx)
+		if p.family == "lit" || p.family == "degenerate" {
+			replay = fmt.Sprintf("build/c07 --seed %d --tier %s --only-%s %d --out /tmp/c07-replay --print", run.Seed, run.Tier, p.family, idx)
+		}
+		if !seen[c] || (os.Getenv("C07_SHRINK_ALL") != "" && len(run.Args) == 0) {
+			small, ssrc := p, src
+			sv := v
+			if ci == 0 && p.shrinkable() {
+				small = shrink(p, base, 300)
+				ssrc = small.render()
+				sv, _, _ = judge(ssrc)
+				if sv.class == "" || !contains(classesOf(small, sv), c) {
+					// shrinking drifted to a different cause: keep the unshrunk witness
+					small, ssrc, sv = p, src, v
+				}
+			}
+			run.Fail(hx.OracleFailure{Class: c, What: fmt.Sprintf("case %d (%s%s): %s", idx, p.family, tag, sv.what),
+				Input:  map[string]any{"source": ssrc, "formatted": sv.out, "original_tokens": len(p.toks), "shrunk_tokens": len(small.toks)},
+				Replay: replay})
+			seen[c] = true
+		} else {
+			run.Fail(hx.OracleFailure{Class: c, What: fmt.Sprintf("case %d (%s%s): %s", idx, p.family, tag, v.what),
+				Input:  map[string]any{"source": src},
+				Replay: replay})
+		}
+	}
+	if residual == nil || depth >= maxResidualDepth {
+		return
+	}
+	rsrc := residual.render()
+	rv, _, gerr := judge(rsrc)
+	if gerr != nil {
+		run.Count("residual:unparsable")
+		return
+	}
+	if rv.class == "" {
+		run.Count("residual:passes")
+		run.Case("fmt\t"+hx.Enc(rsrc)+"\t"+hx.Enc(rv.out)+"\t"+hx.Enc(rv.out2), "valid "+facts(rsrc, rv.out), rsrc != rv.out)
+		return
+	}
+	run.Count("residual:fails-again")
+	reportFailures(run, idx, residual, rv, seen, depth+1)
+}
+
+func classesOf(p *program, v verdict) []string {
+	cs, _ := classifyAll(p, v)
+	return cs
+}
+
+func contains(xs []string, x string) bool {
+	for _, y := range xs {
+		if y == x {
+			return true
+		}
+	}
+	return false
+}
+
+// shrinkable: statement-level shrinking only makes sense for the grammar-generated programs
+// (the stratified and degenerate families are minimal by construction).
+func (p *program) shrinkable() bool { return p.family != "lit" && p.family != "degenerate" }
+
 func runCase(run *hx.Run, idx int, p *program, seen map[string]bool) {
 	src := p.render()
 	v, compiles, gerr := judge(src)
@@ -287,27 +379,8 @@ func runCase(run *hx.Run, idx int, p *program, seen map[string]bool) {
 	}
 	verdictS := "valid " + facts(src, v.out)
 	if v.class != "" {
-		v.class = classify(p, v)
-		run.Count("failure:" + v.class)
-		verdictS = "invalid:" + strings.SplitN(v.class, ":", 2)[0]
-		if !seen[v.class] || (os.Getenv("C07_SHRINK_ALL") != "" && len(run.Args) == 0) {
-			small := shrink(p, strings.SplitN(v.class, ":", 2)[0], 300)
-			ssrc := small.render()
-			sv, _, _ := judge(ssrc)
-			if sv.class == "" || classify(small, sv) != v.class {
-				// shrinking drifted to a different cause: keep the unshrunk witness
-				small, ssrc = p, src
-				sv, _, _ = judge(ssrc)
-			}
-			run.Fail(hx.OracleFailure{Class: v.class, What: fmt.Sprintf("case %d (%s): %s", idx, p.family, sv.what),
-				Input:  map[string]any{"source": ssrc, "formatted": sv.out, "original_tokens": len(p.toks), "shrunk_tokens": len(small.toks)},
-				Replay: fmt.Sprintf("build/c07 --seed %d --tier %s --only %d --out /tmp/c07-replay --print", run.Seed, run.Tier, idx)})
-			seen[v.class] = true
-		} else {
-			run.Fail(hx.OracleFailure{Class: v.class, What: fmt.Sprintf("case %d (%s): %s", idx, p.family, v.what),
-				Input:  map[string]any{"source": src},
-				Replay: fmt.Sprintf("build/c07 --seed %d --tier %s --only %d --out /tmp/c07-replay --print", run.Seed, run.Tier, idx)})
-		}
+		verdictS = "invalid:" + v.class
+		reportFailures(run, idx, p, v, seen, 0)
 	}
 	if v.class == "" {
 		// the implementation claims a valid translation: the Lean checker must agree and
@@ -325,6 +398,8 @@ func runCase(run *hx.Run, idx int, p *program, seen map[string]bool) {
 func main() {
 	file := flag.String("file", "", "debug: format this file, print the result and the oracle verdict")
 	print := flag.Bool("print", false, "with --only: print the generated program and its formatting")
+	onlyLit := flag.Int("only-lit", -1, "regenerate only this cell of the stratified option-literal family")
+	onlyDeg := flag.Int("only-degenerate", -1, "regenerate only this text of the degenerate-file family")
 	run := hx.Start("C07")
 	if *file != "" {
 		b, err := os.ReadFile(*file)
@@ -346,7 +421,7 @@ func main() {
 	if corpusDir == "" {
 		corpusDir = "."
 	}
-	if ents, err := os.ReadDir(corpusDir + "/corpus/C07"); err == nil && run.Only < 0 {
+	if ents, err := os.ReadDir(corpusDir + "/corpus/C07"); err == nil && run.Only < 0 && *onlyLit < 0 && *onlyDeg < 0 {
 		for _, e := range ents {
 			if !strings.HasSuffix(e.Name(), ".proto") {
 				continue
@@ -374,6 +449,15 @@ func main() {
 		}
 	}
 	n := run.N(700, 6000)
+	if *onlyLit >= 0 || *onlyDeg >= 0 {
+		n = 0
+	}
+	if run.Only < 0 && *onlyLit < 0 && os.Getenv("C07_NO_DEGENERATE") == "" {
+		runDegenerate(run, seen, *onlyDeg, *print)
+	}
+	if run.Only < 0 && *onlyDeg < 0 && os.Getenv("C07_NO_LIT") == "" {
+		runLit(run, seen, *onlyLit, *print)
+	}
 	for i := 0; i < n; i++ {
 		if run.Only >= 0 && i != run.Only {
 			continue
